@@ -131,6 +131,10 @@ type cliScriptConn struct {
 	injected  int      // datagrams put on `in`
 	reads     int      // datagrams ReadFrom has returned
 	enter     chan int // ReadFrom announces (value of reads) every time it is entered
+	// wdl: the write deadline, honoured as sockets honour it: a WriteTo at or after it
+	// fails with a timeout error until the deadline is moved or cleared (a deadline
+	// is a property of the connection, not of the call that set it)
+	wdl time.Time
 }
 
 var errCliConnWrite = fmt.Errorf("scripted conn: no buffer space available")
@@ -168,6 +172,9 @@ func (c *cliScriptConn) WriteTo(b []byte, a net.Addr) (int, error) {
 	}
 	c.mu.Lock()
 	defer c.mu.Unlock()
+	if !c.wdl.IsZero() && !time.Now().Before(c.wdl) {
+		return 0, os.ErrDeadlineExceeded
+	}
 	r := writeRec{t: c.now(), dest: a, bytes: append([]byte(nil), b...)}
 	if c.probing {
 		c.probe = append(c.probe, r)
@@ -228,11 +235,17 @@ func (c *cliScriptConn) Close() error {
 
 // cliSlowClose: virtual nanoseconds a closeMode-3 conn spends inside Close
 const cliSlowClose = 1000
-func (c *cliScriptConn) forceClose()                      { c.once.Do(func() { close(c.closed) }) }
-func (c *cliScriptConn) LocalAddr() net.Addr              { return &net.UDPAddr{} }
-func (c *cliScriptConn) SetDeadline(time.Time) error      { return nil }
-func (c *cliScriptConn) SetReadDeadline(time.Time) error  { return nil }
-func (c *cliScriptConn) SetWriteDeadline(time.Time) error { return nil }
+
+func (c *cliScriptConn) forceClose()                     { c.once.Do(func() { close(c.closed) }) }
+func (c *cliScriptConn) LocalAddr() net.Addr             { return &net.UDPAddr{} }
+func (c *cliScriptConn) SetDeadline(time.Time) error     { return nil }
+func (c *cliScriptConn) SetReadDeadline(time.Time) error { return nil }
+func (c *cliScriptConn) SetWriteDeadline(t time.Time) error {
+	c.mu.Lock()
+	c.wdl = t
+	c.mu.Unlock()
+	return nil
+}
 
 // inject never blocks (the queue is far larger than any script).
 func (c *cliScriptConn) inject(b []byte) {
